@@ -2,3 +2,7 @@ import Mdsort.Bytes
 import Mdsort.Gen.Tables
 import Mdsort.Model.Decode
 import Mdsort.Spec.Decode
+import Mdsort.Model.Header
+import Mdsort.Model.Mime
+import Mdsort.Spec.Message
+import Mdsort.Spec.Mime
